@@ -307,8 +307,8 @@ PLANS["C10"] = {
 
 def c11_steps(tier, seed):
     q = tier == "quick"
-    return [{"name": "async-std-stream", "engine": "vha", "args": ["--seed", str(seed), "--trials", str(1500 if q else 60000)], "timeout": 600 if q else 3000}] + [native("close-sweep-%d" % i, ["w_close", "--seed", seed * 10 + i, "--reps", 1 if q else 6, "--random", 120 if q else 3000],
-                   timeout=300 if q else 2400) for i in range(1 if q else 4)]
+    return [{"name": "async-std-stream", "engine": "vha", "args": ["--seed", str(seed), "--trials", str(1500 if q else 60000)], "timeout": 600 if q else 3000}] + [native("close-sweep-%d" % i, ["w_close", "--seed", seed * 10 + i, "--reps", 1 if q else 4, "--random", 120 if q else 1500],
+                   timeout=300 if q else 2400) for i in range(1 if q else 3)]
 
 
 PLANS["C11"] = {
